@@ -8,6 +8,7 @@
 -/
 import Fx.Index
 import Fx.Lemmas.Generic
+import Fx.Lemmas.PegTerm
 namespace Fx.C14
 open Fx
 
@@ -114,5 +115,25 @@ theorem C14_generic_loop_terminates (gs : List GItem) : gpass gs (genericIndexOf
     simp only [List.foldl_cons]
     rw [step_fix a List.mem_cons_self]
     exact ih (fun it hit => step_fix it (List.mem_cons_of_mem _ hit))
+
+/-- the grammar translated from `src/xdr.pest` (regenerated on every run) has no recursion among its rules -/
+theorem xdr_grammar_is_dag : Peg.dag Grammar.xdr = true := by decide
+
+/-- **C14 (the parser terminates).**  For every bound on the length of the text there is one recursion budget from which on the
+    model of pest's parser, run on the grammar of `src/xdr.pest` from any start rule, answers (accepts or rejects) on every text
+    of at most that length: rule references go down in rank (the grammar is a DAG — `xdr_grammar_is_dag`, re-checked against the
+    regenerated grammar on every run) and every repetition stops on an iteration without progress. -/
+theorem C14_parser_terminates (N : Nat) :
+    ∃ F, ∀ (txt : List Char), txt.length ≤ N → ∀ f, F ≤ f → Peg.evalRule Grammar.xdr f false "item" ⟨0, txt⟩ ≠ .outOfFuel := by
+  obtain ⟨F, hF⟩ := Peg.parse_terminates Grammar.xdr _ (Peg.dag_ranked _ xdr_grammar_is_dag) N
+  exact ⟨F, fun txt hl f hf => hF "item" ⟨0, txt⟩ hl f hf⟩
+
+/-- what comes after the parser is structurally recursive (`walk`, the constructors, the sorted-insert folds) or the generic
+    index loop, which reaches its fixpoint within `items.length + 1` passes (`C14_generic_loop_terminates`): so `Ast::new`
+    terminates on every text — with `Ok`, `Err`, or one of the panics characterised above (findings K6.*) -/
+theorem C14_front_end_terminates (txt : List Char) :
+    ∃ F, ∀ f, F ≤ f → ∃ r, Peg.evalRule Grammar.xdr f false "item" ⟨0, txt⟩ = r ∧ r ≠ .outOfFuel := by
+  obtain ⟨F, hF⟩ := C14_parser_terminates txt.length
+  exact ⟨F, fun f hf => ⟨_, rfl, hF txt (Nat.le_refl _) f hf⟩⟩
 
 end Fx.C14
